@@ -117,8 +117,14 @@ def model_b(case):
     spell = case['spell']
     itf_scope = case['scope']
     mc = case.get('mc')
-    events = [['Ev', 'in', ['void'], [['a', spell, 'in'], ['b', spell, 'out'], ['c', spell, 'inout']]],
-              ['Ov', 'out', ['void'], [['a', spell, 'in']]]]
+    # events before and after with SAME-NAMED parameters of another, always uniquely resolving extern type
+    doc += [['extern', 'ZFix', 'verif::Fixed']]
+    events = [['Ev0', 'in', ['void'], [['a', ['ZFix'], 'in'], ['c', ['ZFix'], 'inout']]],
+              ['Ov0', 'out', ['void'], [['a', ['ZFix'], 'in']]],
+              ['Ev', 'in', ['void'], [['a', spell, 'in'], ['b', spell, 'out'], ['c', spell, 'inout']]],
+              ['Ov', 'out', ['void'], [['a', spell, 'in']]],
+              ['Ev2', 'in', ['void'], [['b', ['ZFix'], 'out'], ['a', ['ZFix'], 'in']]],
+              ['Ov2', 'out', ['void'], [['a', ['ZFix'], 'in']]]]
     if mc:
         events = [['Claim', 'in', ['Res'], [['a', spell, 'in'], ['b', spell, 'out']]],
                   ['Release', 'in', ['void'], [['b', spell, 'inout']]]] + events
@@ -155,10 +161,15 @@ def judge_b(case):
         found = PARAM_RE.findall(source)
         if not found:
             return [('no-lambda-found', desc)]
+        seen = set()
         for evname, params in found:
+            seen.add(evname)
             types = [p.strip().rsplit(' ', 1)[0].rstrip('&') for p in params.split(',')]
-            if any(t != data for t in types):
-                return [('wrong-formal-type', f'event {evname} params {params!r}, expected {data} | {desc}')]
+            want = 'verif::Fixed' if evname in ('Ev0', 'Ov0', 'Ev2', 'Ov2') else data
+            if any(t != want for t in types):
+                return [('wrong-formal-type', f'event {evname} params {params!r}, expected {want} | {desc}')]
+        if not any(e in seen for e in ('Ev', 'Ov', 'Claim')):
+            return [('no-lambda-found', desc)]
         return []
     if verdict == 'OK':
         return [(f'unresolvable-formal-type-accepted:{len(hits)}hits', desc)]
